@@ -70,7 +70,8 @@ def main():
     meta["confirmation"]["suite_summary"] = o2.strip()
     shutil.copy(f"{src}/demo.rs", f"{wt}/tests/seed_demo.rs")
     rc, o = sh(f"cargo test --offline {feat} --test seed_demo 2>&1 | tail -15", cwd=wt)
-    demo_fails = ("test result: FAILED" in o) or ("panicked" in o and "test result: ok" not in o)
+    # (a demo may also end by a signal, e.g. SIGSEGV/SIGABRT in C code: cargo then prints "error: test failed")
+    demo_fails = ("test result: FAILED" in o) or (("panicked" in o or "error: test failed" in o or "signal:" in o) and "test result: ok" not in o)
     meta["confirmation"]["patched_tree_demo_fails"] = demo_fails
     sh("git checkout -- . && rm -f tests/seed_demo.rs", cwd=wt)
     confirmed = clean_pass and suite_ok and demo_fails and meta["confirmation"]["patch_applies"]
